@@ -381,7 +381,87 @@ struct Plan {
     zeros: u64,
     includes: u64,
     deep: u64,
+    prices: u64,
     cli: u64,
+}
+
+/// A ledger whose transactions span a price graph with many equally good conversion chains
+/// (diamond chains, grids, cliques, long chains, random graphs), all rates recorded on one or a
+/// few days: the work of `balance -X` must stay polynomial in the number of prices.
+fn price_graph(rng: &mut Rng) -> (String, &'static str) {
+    let name = |i: usize| format!("C{}{}", (b'a' + (i / 26) as u8) as char, (b'a' + (i % 26) as u8) as char);
+    let mut edges: Vec<(usize, usize)> = Vec::new();
+    let shape = match rng.below(5) {
+        0 => {
+            // k diamonds in a row: node i -> {mid a, mid b} -> node i+1
+            let k = 5 + rng.usize(41);
+            for i in 0..k {
+                let (n0, a, b, n1) = (3 * i, 3 * i + 1, 3 * i + 2, 3 * i + 3);
+                edges.extend([(n0, a), (a, n1), (n0, b), (b, n1)]);
+            }
+            "diamond-chain"
+        }
+        1 => {
+            let n = 5 + rng.usize(10);
+            for i in 0..n {
+                for j in i + 1..n {
+                    edges.push((i, j));
+                }
+            }
+            "clique"
+        }
+        2 => {
+            let n = 30 + rng.usize(171);
+            for i in 0..n {
+                edges.push((i, i + 1));
+            }
+            "chain"
+        }
+        3 => {
+            let (w, h) = (3 + rng.usize(5), 3 + rng.usize(5));
+            for y in 0..h {
+                for x in 0..w {
+                    if x + 1 < w {
+                        edges.push((y * w + x, y * w + x + 1));
+                    }
+                    if y + 1 < h {
+                        edges.push((y * w + x, (y + 1) * w + x));
+                    }
+                }
+            }
+            "grid"
+        }
+        _ => {
+            let n = 10 + rng.usize(31);
+            let m = 2 * n + rng.usize(2 * n);
+            for _ in 0..m {
+                let (a, b) = (rng.usize(n), rng.usize(n));
+                if a != b {
+                    edges.push((a, b));
+                }
+            }
+            "random"
+        }
+    };
+    if rng.chance(1, 3) {
+        rng.shuffle(&mut edges);
+    }
+    let days = 1 + rng.usize(3) as u32;
+    let unit_rates = rng.chance(2, 3);
+    let mut out = String::new();
+    for (k, (a, b)) in edges.iter().enumerate() {
+        let rate = if unit_rates { "1".to_string() } else { ["2", "0.5", "1.25", "3", "1"][rng.usize(5)].to_string() };
+        let (x, y) = if rng.chance(1, 2) { (a, b) } else { (b, a) };
+        out.push_str(&format!(
+            "2024/03/{:02} P{}\n    Assets:Trade    1 {} @ {} {}\n    Equity:Trade\n\n",
+            1 + (k as u32 % days),
+            k,
+            name(*y),
+            rate,
+            name(*x)
+        ));
+    }
+    (out, shape)
 }
 
 fn plan(tier: Tier) -> Plan {
@@ -393,6 +473,7 @@ fn plan(tier: Tier) -> Plan {
         zeros: tier.pick(4_000, 200_000),
         includes: tier.pick(3_000, 100_000),
         deep: (DEPTHS.len() * 4) as u64,
+        prices: tier.pick(400, 30_000),
         cli: tier.pick(250, 6_000),
     }
 }
@@ -412,7 +493,7 @@ fn cli_commands(path: &str) -> Vec<Vec<String>> {
 }
 
 fn run_cli_case(ctx: &Ctx, rng: &mut Rng, rec: &mut Recorder, idx: u64) {
-    let text = match rng.below(5) {
+    let text = match rng.below(6) {
         0 => gen_text(ctx.seed, idx, 2),
         1 => {
             let base = gen_semantic(rng);
@@ -424,6 +505,7 @@ fn run_cli_case(ctx: &Ctx, rng: &mut Rng, rec: &mut Recorder, idx: u64) {
             let pos = char_positions(&t);
             t[..pos[rng.usize(pos.len())]].to_string()
         }
+        4 => price_graph(rng).0,
         _ => random_string(rng),
     };
     if text.contains('\u{0}') {
@@ -490,7 +572,7 @@ impl Check for C06 {
 
     fn cases(&self, tier: Tier) -> u64 {
         let p = plan(tier);
-        p.prefix_gen + p.prefix_seed + p.mutate + p.random + p.zeros + p.includes + p.deep + p.cli
+        p.prefix_gen + p.prefix_seed + p.mutate + p.random + p.zeros + p.includes + p.deep + p.prices + p.cli
     }
 
     fn chunk(&self, tier: Tier) -> u64 {
@@ -657,6 +739,18 @@ impl Check for C06 {
             rec.count("family:deep-nesting");
             return;
         }
+        i -= p.deep;
+        if i < p.prices {
+            let (text, shape) = price_graph(&mut rng);
+            rec.count(&format!("price-graph:{}", shape));
+            exercise_text_tagged(rec, &text, true, "@price-graph");
+            rec.nontrivial(&text);
+            rec.count("family:price-graph");
+            if rec.wants_sample() {
+                rec.sample(json!({"family": "price graph", "shape": shape, "text_head": text.chars().take(400).collect::<String>()}));
+            }
+            return;
+        }
         run_cli_case(ctx, &mut rng, rec, idx);
         rec.count("family:cli");
     }
@@ -667,7 +761,8 @@ impl Check for C06 {
          line swaps, numbers replaced by zeros / extreme values); random strings over the ledger alphabet with arbitrary Unicode; \
          ledgers with zeros and boundary values in every slot that accepts a number; include graphs of 2-5 files with self-includes, \
          cycles, globs, missing and malformed targets on the in-memory and the real file system; nesting depth 1..30000 of \
-         parentheses / unary minus / operator chains within 64 KiB; black-box runs of the real binary (format, balance, balance -X, \
+         parentheses / unary minus / operator chains within 64 KiB; price graphs with many equally good conversion chains (rows of 5-45 \
+         diamonds, cliques of 5-14, chains of 30-200, grids up to 7x7, random graphs; all rates on 1-3 days); black-box runs of the real binary (format, balance, balance -X, \
          --historical, register, accounts, primitive flatten, primitive eval). Operations per input: parse_ledger (+ Display of \
          the error), FormatOptions::format, report::process on the fake file system followed by balance (plain, ranged, -X \
          up-to-date and historical for up to 4 commodities), eval, postings with running totals, report::accounts. Non-trivial = \
